@@ -174,6 +174,7 @@ type Report struct {
 	OracleFails   []OracleFail   `json:"oracle_fails"`
 	NDisagree     int            `json:"n_disagreements"`
 	NOracleFail   int            `json:"n_oracle_fails"`
+	FailsBySite   map[string]int `json:"fails_by_site"`
 	Notes         []string       `json:"notes,omitempty"`
 	mu            sync.Mutex
 }
@@ -191,9 +192,15 @@ func (r *Report) addDis(d Disagreement) {
 func (r *Report) addFail(f OracleFail) {
 	r.mu.Lock()
 	r.NOracleFail++
-	if len(r.OracleFails) < maxKeep {
+	if r.FailsBySite == nil {
+		r.FailsBySite = map[string]int{}
+	}
+	// keep up to maxKeep examples per site ("" = not attributed to a known class),
+	// so that known findings can never crowd out a fresh violation
+	if r.FailsBySite[f.Site] < maxKeep {
 		r.OracleFails = append(r.OracleFails, f)
 	}
+	r.FailsBySite[f.Site]++
 	r.mu.Unlock()
 }
 
